@@ -335,6 +335,39 @@ BUILTINS = {
 }
 
 
+_RULE_VOCAB = None
+
+
+def rule_vocabulary() -> set:
+    """Every identifier that occurs in the checker's own sources: the functions the rules reason about by name."""
+    global _RULE_VOCAB
+    if _RULE_VOCAB is None:
+        import glob
+        import os
+        import re
+        here = os.path.dirname(os.path.abspath(__file__))
+        toks = set()
+        for path in glob.glob(os.path.join(here, "**", "*.py"), recursive=True):
+            with open(path) as fh:
+                toks.update(re.findall(r"[A-Za-z_][A-Za-z0-9_]*", fh.read()))
+        _RULE_VOCAB = toks
+    return _RULE_VOCAB
+
+
+def is_unnamed_helper(callee) -> bool:
+    n = callee.name
+    if not n.startswith("_") or n.startswith("__") or n in rule_vocabulary():
+        return False
+    if getattr(callee, "is_custom_jvp", False) or callee.is_abstract:
+        return False
+    try:
+        if callee.is_refusal():
+            return False
+    except Exception:
+        pass
+    return True
+
+
 class Evaluator:
     """Builds terms for function bodies of a Program.
 
@@ -610,8 +643,36 @@ class Evaluator:
         if st.orelse:
             self.exec_block(fr, st.orelse)
 
+    MAX_UNROLL = 4
+
+    def const_sequence(self, it: T) -> Optional[List[T]]:
+        """Elements of an iterable whose length is a small literal: range(2), range(1, 3), (a, b), [a, b].
+        Such loops are copy-paste in disguise (`for spin in range(2)`): they are unrolled, not abstracted."""
+        it0 = it
+        if it0.op in ("tuple", "list") and 0 < len(it0.args) <= self.MAX_UNROLL and all(isinstance(a, T) for a in it0.args):
+            return list(it0.args)
+        if it0.op == "call" and func_name(it0) == "builtins.range":
+            _, pos, kws = call_parts(it0)
+            if kws or not (1 <= len(pos) <= 2):
+                return None
+            vals = [a.args[0] if a.op == "const" and isinstance(a.args[0], int) and not isinstance(a.args[0], bool)
+                    else None for a in pos]
+            if None in vals:
+                return None
+            lo, hi = (0, vals[0]) if len(vals) == 1 else (vals[0], vals[1])
+            if 0 < hi - lo <= self.MAX_UNROLL:
+                return [const(i) for i in range(lo, hi)]
+        return None
+
     def st_For(self, fr, st):
         it = self.eval(fr, st.iter)
+        seq = self.const_sequence(it)
+        if seq is not None and not st.orelse and not any(
+                isinstance(n, (ast.Break, ast.Continue, ast.Return)) for b in st.body for n in ast.walk(b)):
+            for el in seq:
+                self.assign(fr, st.target, el, st.lineno)
+                self.exec_block(fr, st.body)
+            return
         self._loop(fr, st, it, st.target)
 
     def st_While(self, fr, st):
@@ -898,6 +959,14 @@ class Evaluator:
         sub = Frame(self, fr.fi, fr.mod, fr, fr.label + ".<comp>")
         sub.self_class = fr.self_class
         sub.path, sub.loops = fr.path, fr.loops
+        if kind in ("list", "gen") and len(n.generators) == 1 and not n.generators[0].ifs and len(elt_nodes) == 1:
+            seq = self.const_sequence(self.eval(sub, n.generators[0].iter))
+            if seq is not None:
+                out = []
+                for el in seq:
+                    self.assign(sub, n.generators[0].target, el, n.lineno)
+                    out.append(self.eval(sub, elt_nodes[0]))
+                return mk("list", *out)
         gens = []
         for g in n.generators:
             it = self.eval(sub, g.iter)
@@ -956,12 +1025,14 @@ class Evaluator:
                 t = setitem(tgt.args[0].args[0], tgt.args[1], args[0])
                 self.note_line(t, line)
                 return t
-        if self.inline_policy is not None and self._depth < self.MAX_INLINE_DEPTH \
+        if (self.inline_policy is not None or self.auto_inline_helpers) and self._depth < self.MAX_INLINE_DEPTH \
                 and f.op in ("attr", "fn"):
             cands = self.resolve_callees(f, fr)
             if cands and len(cands) == 1:
                 callee, rc = cands[0]
-                if not callee.qualname.endswith(">") and self.inline_policy(callee, rc, fr):
+                if not callee.qualname.endswith(">") and (
+                        (self.inline_policy is not None and self.inline_policy(callee, rc, fr)) or
+                        (self.auto_inline_helpers and is_unnamed_helper(callee))):
                     r = self.inline_function(fr, f, callee, rc, args, kws, line)
                     if r is not None:
                         return r
@@ -1004,6 +1075,9 @@ class Evaluator:
 
     open_transforms = False
     inline_policy = None  # callable(callee FuncInfo, receiver class, frame) -> bool
+    # private helpers that no rule refers to by name (typically extracted by a refactoring) are evaluated in place:
+    # a rule never has to know that a sub-expression has been given a function of its own
+    auto_inline_helpers = True
 
     def inline_function(self, fr: Frame, f: T, callee: FuncInfo, recv_cls: Optional[str],
                         args: List[T], kws: List[T], line: int) -> Optional[T]:
